@@ -69,7 +69,12 @@ def run(pid: str, tier: str) -> int:
         def lvl(depth, res, nfront, plan=plan):
             common.eprint(f"  [{pid}] plan={['+'.join(g) if g != ALL else 'ALL' for g in plan]} depth={depth} states={res.states} transitions={res.transitions} frontier={nfront}")
 
-        res = bfs(seeds, plan, caps, sample_rng=r.rng, on_level=lvl, is_known=lambda k: k in known_keys, deadline=deadline)
+        res = bfs(seeds, plan, caps, sample_rng=r.rng, on_level=lvl, is_known=lambda k: k in known_keys, deadline=deadline,
+                  # a state in which the property under check is already broken is not expanded; a state that only breaks
+                  # the sibling property is (a rejected call that leaves hidden damage shows up in C01 a few calls later)
+                  # (the C06 run keeps not expanding states in which C01 is already broken: everything a later call
+                  # does to such a state is a consequence of that breakage)
+                  prune_on=("c01",) if which == "c01" else ("c01", "c06"))
         total_states += res.states
         total_trans += res.transitions
         total_raise += res.raising
